@@ -3,6 +3,7 @@ import ZnVerif.Model.Format
 import ZnVerif.Model.TextOps
 import ZnVerif.Spec.Template
 import ZnVerif.Spec.TextOps
+import ZnVerif.Spec.TextFamily
 
 /-!
 Driver ops of C14.  `fmt` answers with the model's / spec's result text in which every call of the runtime
@@ -163,8 +164,66 @@ def histSpec (i j : Int) (w : List Char) (t : List Nat) : List String :=
   let p := parseSteps i j w
   (Spec.TextOps.runHistory p.1 t).map specObsField ++ (if p.2 then ["bad-op"] else [])
 
+/-! a FAMILY of text values derived from each other (`textfam`): `Spec.TextFamily.run` over the characters (spec) and
+over the bytes with the model's primitives (model); after every step EVERY member is observed: 长度, the text, 字符组
+and 取样 i..j for the pairs of `famPairs` -/
+
+open Spec.TextFamily in
+/-- the model's primitives on UTF-8 bytes under the family steps -/
+def byteAlg : TextAlg where
+  ofChars := Model.TextOps.encode
+  len := Model.TextOps.length
+  chars := Model.TextOps.chars
+  slice s i j := match Model.TextOps.slice s i j with | .ok r => some r | .error _ => none
+  split := Model.TextOps.split
+  rewrite := Model.TextOps.atoiRewrite
+
+def natList? (s : String) : Option (List Nat) :=
+  if s.isEmpty then some [] else (s.splitOn ",").mapM fun x => x.toNat?
+
+open Spec.TextFamily in
+def parseFamStep (s : String) : Option Step :=
+  let f := ((s.drop 1).toString).splitOn ":"
+  match s.toList.head?, f with
+  | some 'j', [k, lits] => k.toNat?.map fun k => .joinLits k ((lits.splitOn ",").map parseCps)
+  | some 'J', [k, ms] => match k.toNat?, natList? ms with
+    | some k, some ms => some (.joinMembers k ms)
+    | _, _ => none
+  | some 'c', [k] => k.toNat?.map .copy
+  | some 'a', [k] => k.toNat?.map .assign
+  | some 's', [k, i, j] => match k.toNat?, i.toInt?, j.toInt? with
+    | some k, some i, some j => some (.slice k i j)
+    | _, _, _ => none
+  | some 'p', [k, sep, idx] => match k.toNat?, idx.toNat? with
+    | some k, some idx => some (.piece k (parseCps sep) idx)
+    | _, _ => none
+  | some 'r', [k, pat, rep] => k.toNat?.map fun k => .replace k (parseCps pat) (parseCps rep)
+  | some 'n', [k] => k.toNat?.map .toNumber
+  | _, _ => none
+
+/-- the index pairs observed on a text of n characters: 1 ≤ i ≤ j ≤ n with j − i < 3, or i = 1, or j = n -/
+def famPairs (n : Nat) : List (Int × Int) :=
+  ((List.range n).map fun i0 => ((List.range n).filter fun j0 => i0 ≤ j0 ∧ (j0 - i0 < 3 ∨ i0 = 0 ∨ j0 + 1 = n)).map
+    fun j0 => (((i0 + 1 : Nat) : Int), ((j0 + 1 : Nat) : Int))).flatten
+
+def famMember (A : Spec.TextFamily.TextAlg) (piece : List Nat → String) (t : List Nat) : String :=
+  let n := A.len t
+  "L=" ++ toString n ++ " T=" ++ piece t ++ " C=" ++ ",".intercalate ((A.chars t).map piece) ++
+  " S=" ++ ",".intercalate ((famPairs n).map fun p => match A.slice t p.1 p.2 with
+    | some r => piece r
+    | none => "ERR")
+
+def famRun (A : Spec.TextFamily.TextAlg) (piece : List Nat → String) (t script : String) : String :=
+  match (script.splitOn ";").mapM parseFamStep with
+  | none => "bad-op"
+  | some steps =>
+    let p := Spec.TextFamily.run A [A.ofChars (parseCps t)] steps
+    " | ".intercalate (p.1.map fun fam => " / ".intercalate (fam.map (famMember A piece))) ++ (if p.2 then "" else " | stuck")
+
 def handle (op : String) (args : List String) : Option String :=
   match op, args with
+  | "textfam", [t, w] => some (famRun byteAlg pieceField t w)
+  | "spec:textfam", [t, w] => some (famRun Spec.TextFamily.charAlg cpField t w)
   | "texthist", [t, i, j, w] =>
     some (" | ".intercalate (histModel i.toInt! j.toInt! w.toList (Model.TextOps.encode (parseCps t))))
   | "spec:texthist", [t, i, j, w] => some (" | ".intercalate (histSpec i.toInt! j.toInt! w.toList (parseCps t)))
